@@ -122,7 +122,14 @@ func TypeVerify(t, u *Header) error {
 	return err
 }
 
+// VerifyPanicNonce marks a header that decodes and validates but makes the type-level Verify panic
+// (peer-supplied data a sloppy header type chokes on).
+const VerifyPanicNonce = 0xDEADBEEFDEADBEEF
+
 func typeVerify(t, u *Header) error {
+	if u.Nonce == VerifyPanicNonce {
+		panic("vh: verify panic marker")
+	}
 	if !u.Signed {
 		return ErrUnsigned
 	}
